@@ -875,7 +875,11 @@ private:
       for (unsigned t(0); t < n; ++t)
       {
         if (int(t) == pending) continue;
-        if (active[t]) { step(int(t), false); again = true; }
+        if (active[t])
+        {
+          if (next_acquire(int(t)) != 0 && pending >= 0) continue;      // one queued thread at a time
+          step(int(t), false); again = true;
+        }
         else if (pc[t] < progs[t].size() && pending < 0 && enabled(next_acquire(int(t)), int(t)) == tri::yes)
         { step(int(t), false); again = true; }
       }
@@ -913,7 +917,7 @@ int main(int argc, char **argv)
   SEAL_ATOMIC = argc > 7 && std::string(argv[7]) == "1";
   if (DISC.find_first_of("NU") != std::string::npos || DISC[1] == '1') LONG = ms(20000);
   const unsigned pb(argc > 8 ? std::stoul(argv[8]) : 2);
-  const bool thorough(dfs_cap > 1000);
+  const bool thorough(dfs_cap >= 1000);
   maybe_left = 3 * probes;
   verif::splitmix rng(seed);
   vita::verif_hook::sched_callback = park;
